@@ -4,9 +4,10 @@ A  Props/C39.v: invariants of the connection LTS (Model/C39.v) over ALL reachabl
    K-gen obligations  generated = modelled  (every updateInFlight critical section of conn.go, hashed;
    idle()/shuttingDown() translated into the model).
 B  every history recorded on the real Connection (scripted peer with injected read/write errors, and
-   two real Connections over net.Pipe with the HeaderFramer; gated handlers, async Respond, Cancel,
-   Close racing with disconnect; built with -race) must be accepted by the EXTRACTED step function
-   (closure under the unlogged implementation steps) and end in a quiescent done state.
+   two real Connections talking through the HeaderFramer over an in-memory duplex stream; gated
+   handlers, async Respond, Cancel, Close racing with disconnect; built with -race) must be accepted
+   by the EXTRACTED step function (closure under the unlogged implementation steps, proved complete:
+   C39_acceptor_closure_complete) and end in a quiescent done state.
 C  direct oracle in the harness: Await returns exactly once / never (timeout), second Await differs,
    incoming call answered more often than asked, Close hanging after the handlers finished, rwc closed
    twice, panics and race reports (the process dies: the scenario is identified by its BEGIN marker).
@@ -21,12 +22,15 @@ CLAIM = {
             "updateInFlight critical section + the shared idle/shutdown epilogue, any number of calls/threads, any "
             "interleaving): retire at most once (the three panics of conn.go are unreachable), Await gets the response "
             "with its own ID, every registered call is retired when the connection is done, every incoming call is "
-            "answered at most once, done only when idle and not reading, and a progress measure that strictly decreases "
-            "on every implementation step. The model is tied to conn.go by regenerated section hashes / translated "
+            "answered at most once, done only when idle and not reading, a progress measure that strictly decreases "
+            "on every implementation/completion step, and no internal deadlock (while not done and no async response is "
+            "owed, a non-arrival step is enabled; measure 0 implies done). The model is tied to conn.go by regenerated section hashes / translated "
             "idle() and shuttingDown() (K-gen) and by replaying recorded histories of the real Connection through the "
             "extracted step function (K-diff).",
     "note": "Safety is proved on the model for all interleavings; liveness ('Close returns once handlers finish') is a "
-            "measure + no-stuck argument on the model, real scheduling is only explored (bounded scenarios, -race). "
+            "measure + no-internal-deadlock argument on the model (fairness and a Reader that fails after the stream is closed "
+            "are assumed), real scheduling is only explored (bounded scenarios, -race). Known finding: over a synchronous stream "
+            "(net.Pipe) two Connections that answer from their read loops block each other in Write. "
             "Assumed: critical sections are atomic (stateMu), Go channel close/select semantics, the handler contract "
             "(Respond exactly once and only after ErrAsyncResponse; no ErrAsyncResponse for notifications). The Go code is "
             "modelled, not verified; the harness (logging framer, scripted peer) and the acceptor driver are trusted.",
@@ -228,7 +232,7 @@ def run(ctx):
     scen = []          # (scenario line, kind)
     for s in FIXED:
         scen.append((s, "fixed"))
-    nrand = ctx.n(120, 4000)
+    nrand = ctx.n(100, 4000)
     for i in range(nrand):
         if i % 3 == 2:
             scen.append((gen.real(0), "random-real"))
